@@ -256,3 +256,24 @@ func VerifC01Pipeline() {
 	nd.Assert(err == nil || out == "", "output-or-error")
 	nd.Reach("C01.pipeline")
 }
+
+// VerifC01ScanWork: malformed source with many unterminated raw and comment tags is rejected in time
+// proportional to its length: the tokenizer's searches for end tags look at each byte a bounded
+// number of times (the engine counts the bytes its native regular-expression searches examine;
+// natively the source is a hundred times longer and a watchdog bounds the wall-clock time).
+func VerifC01ScanWork() {
+	n := 300
+	if !nd.Symbolic() {
+		n = 30000
+	}
+	unit := []string{"{% comment %} {% raw %}\n", "{% comment %}x ", "{% raw %}{{ a }}", "{% comment %}{% if a %}{% endcomment %}{% raw %}"}[nd.Choice(4)]
+	src := ""
+	for i := 0; i < n; i++ {
+		src += unit
+	}
+	nd.WorkBound(40 * len(src))
+	nd.LoopBound(40 * n)
+	_, err := NewEngine().ParseString(src)
+	nd.Assert(err != nil, "unterminated-blocks-rejected")
+	nd.Reach("C01.scanwork")
+}
